@@ -34,7 +34,7 @@ def rand_atom(rng, modelled=False):
         return rng.random() < 0.5
     if r < 0.65:
         return rng.choice([0, 1, 2, 3, 7])
-    return rng.choice(['', 'u', 'vw', 'A b', 'q<r', 'inc'])
+    return rng.choice(['', 'u', 'vw', 'A b', 'q<r', 'inc', ' w '])
 
 
 def rand_data(rng, modelled=False, fail_bias=0.0):
@@ -62,6 +62,18 @@ def rand_data(rng, modelled=False, fail_bias=0.0):
     return d
 
 
+def healthy_data(rng):
+    """data for templates with a lazily evaluated nested scope / a stateful match path in focus: every name
+    defined, nothing raises, lists long enough for a generator to be suspended between two items (the renders
+    differ in the values)"""
+    d = {}
+    for v in VARS_ATOM:
+        d[v] = rng.choice([0, 1, 2, 3, 7, 'u', 'vw', 'A b', True, None])
+    for v in VARS_LIST:
+        d[v] = [rng.choice([1, 2, 3, 'u', 'vw']) for _ in range(rng.choice([2, 3, 3]))]
+    return d
+
+
 class BoomError(Exception):
     pass
 
@@ -71,6 +83,9 @@ class BoomStr(object):
     def __str__(self):
         raise BoomError('str')
     __unicode__ = __str__
+
+    def __repr__(self):
+        return '<BoomStr>'          # no address: the object may be shown inside a tuple / list
 
     def __eq__(self, other):
         return False
@@ -86,6 +101,9 @@ class BoomIter(object):
     """iterable that raises after `after` items (fresh iterator each time)"""
     def __init__(self, after):
         self.after = after
+
+    def __repr__(self):
+        return '<BoomIter %d>' % self.after
 
     def __iter__(self):
         for i in range(self.after):
@@ -177,8 +195,10 @@ class Gen(object):
         out = []
         if rng.random() < 0.3:
             out.append('class="%s"' % rng.choice(['k', 'm n']))
-        if rng.random() < 0.2 and not self.modelled:
-            out.append('title="T$%s"' % rng.choice(list(VARS_ATOM) + list(loopvars)))
+        if rng.random() < 0.2:
+            names = list(VARS_ATOM) + list(loopvars)
+            out.append(rng.choice(['title="T$%s"', 'title="$%s"', 'title="${%s}-$b"', 'id="$%s"', 'lang="a ${%s} $c"',
+                                   'title="T${xs}${%s}"']) % rng.choice(names))
             self.features.add('attr-interp')
         elif rng.random() < 0.1:
             out.append('title="Tip"')
@@ -201,9 +221,7 @@ class Gen(object):
         m = self.modelled
         dirs = []
         newvars = []
-        kinds = ['if', 'for', 'with', 'choose', 'strip', 'content', 'replace', 'def', 'match']
-        if not m:
-            kinds += ['attrs']
+        kinds = ['if', 'for', 'with', 'choose', 'strip', 'content', 'replace', 'def', 'match', 'attrs']
         k = rng.choice([1, 1, 1, 2, 2, 3])
         for name in rng.sample(kinds, min(k, len(kinds))):
             if name == 'if':
@@ -228,7 +246,10 @@ class Gen(object):
                     dirs.append(('replace', rand_expr(rng, m, 'any', loopvars)))
             elif name == 'attrs':
                 if not any(d[0] == 'replace' for d in dirs):
-                    dirs.append(('attrs', rng.choice(["{'id': a}", 'None', "{'class': None}", "[('k', s)]"])))
+                    dirs.append(('attrs', rng.choice(["{'id': a}", 'None', "{'class': None}", "[('k', s)]",
+                                                      "{'title': b, 'id': n}", "[('class', c), ('class', s)]",
+                                                      "{'title': None, 'class': s}", rng.choice(VARS_ATOM), '{}',
+                                                      "[('title', n), ('id', None), ('k', a)]"])))
             elif name == 'def':
                 self.ndefs += 1
                 fn = 'f%d' % self.ndefs
@@ -293,6 +314,10 @@ class Gen(object):
         if not self.modelled and 0.40 <= r < 0.43:
             self.features.add('python-pi')
             return '<?python pv = %s ?>' % rng.choice(['1', 'len("ab")', 'n'])
+        if not self.modelled and 0.43 <= r < 0.47:
+            return self.lazy_element(loopvars)
+        if not self.modelled and 0.47 <= r < 0.50:
+            return self.match_block()
         tag = rng.choice(TAGS)
         attrs = self.attrs(loopvars)
         dirs, newvars = [], []
@@ -332,6 +357,72 @@ class Gen(object):
             else:
                 s = '<py:%s %s="%s">%s</py:%s>' % (k, argname, esc_attr(v), s, k)
         return s
+
+    # code of a NESTED scope that reads a context variable and runs lazily: it is suspended (or merely
+    # defined) in one next() and continues in a later one -- in between other renders of the same template
+    # object evaluate their own expressions (seeded change C10-3: a globals dict shared by all evaluations)
+    LAZY_BODIES = ["'%%s:%%s;' %% (x, %(v)s)", "(x, %(v)s)", "x == %(v)s", "'%%s' %% %(v)s"]
+
+    def lazy_element(self, loopvars=()):
+        rng = self.rng
+        v = rng.choice(VARS_ATOM)               # the context variable that is read late
+        xs = rng.choice(VARS_LIST)
+        body = rng.choice(self.LAZY_BODIES) % {'v': v}
+        kind = rng.choice(['lazy-genexp', 'lazy-genexp', 'lambda-late', 'codeblock-generator'])
+        self.features.add(kind)
+        tag = rng.choice(TAGS)
+        pre = ''
+        if kind == 'lazy-genexp':
+            src = '(%s for x in %s)' % (body, xs)
+        elif kind == 'lambda-late':
+            if rng.random() < 0.3:
+                # defined by one expression, called from later ones
+                return ('<%s py:with="g=lambda x: %s">${g(1)}<i py:for="y in %s">${g(y)}$%s</i></%s>'
+                        % (tag, esc_attr(body), xs, rng.choice(VARS_ATOM), tag))
+            src = 'map(lambda x: %s, %s)' % (body, xs)       # map() is lazy: the lambda runs item by item
+        else:
+            self.nlazy = getattr(self, 'nlazy', 0) + 1
+            fn = 'gen%d' % self.nlazy
+            pre = '<?python\ndef %s():\n    for x in %s:\n        yield %s\n?>' % (fn, xs, body)
+            src = fn + '()'
+        other = rng.choice(VARS_ATOM)
+        if rng.random() < 0.6:
+            return pre + '<%s py:for="v in %s">$v<b>$%s</b></%s>' % (tag, esc_attr(src), other, tag)
+        return pre + '<%s>$%s${%s}</%s>' % (tag, other, src, tag)
+
+    # a match template whose path test keeps state between events (multi-step, positional predicates, on
+    # the first step too) next to a literal fragment on which it fires: a test function / position counter
+    # shared between the renders of one template object shows only here (seeded changes C10-1, C12-3)
+    MATCH_PATHS = ['%(a)s[2]/%(b)s', '%(a)s[1]/%(b)s', '%(a)s[2]/*', '*[2]/%(b)s', '%(a)s[2]//%(b)s',
+                   '%(a)s[1]/%(b)s[1]', '%(a)s[2]/%(b)s[2]', '%(a)s[1]/*/%(b)s', '%(a)s/%(b)s[2]', '%(a)s/%(b)s',
+                   '%(a)s[2]/%(b)s[1]', '*[1]/%(b)s', '%(a)s[3]/%(b)s']
+
+    def match_block(self):
+        rng = self.rng
+        a, b, c = rng.sample(['p', 'b', 'i', 'span', 'em', 'li', 'ul'], 3)
+        path = rng.choice(self.MATCH_PATHS) % {'a': a, 'b': b}
+        self.features.add('match-stateful')
+        self.features.add('py:match')
+        body = rng.choice(['<m>[${select(".")}]</m>', '<m>${select("*|text()")}</m>', '<m>$a</m>', '<m/>'])
+        if rng.random() < 0.5:
+            hints = rng.choice(['', ' buffer="false"', ' once="true"', ' once="false" buffer="false"', ' recursive="false"'])
+            mt = '<py:match path="%s"%s>%s</py:match>' % (path, hints, body)
+        else:
+            mt = body.replace('<m>', '<m py:match="%s">' % path, 1).replace('<m/>', '<m py:match="%s"/>' % path, 1)
+        doc = []
+        for _ in range(rng.choice([2, 3, 3])):
+            kids = []
+            for k in range(rng.choice([1, 2, 3])):
+                kids.append(rng.choice(['<%s>t%d</%s>' % (b, k, b), '<%s/>' % b, '<%s><%s>n%d</%s></%s>' % (c, b, k, b, c),
+                                        'txt', '<%s>$a</%s>' % (b, b)]))
+            doc.append('<%s>%s</%s>' % (a, ''.join(kids), a))
+        doc = ''.join(doc)
+        if rng.random() < 0.3:
+            doc = '<%s>%s</%s>' % (c, doc, c)
+        if rng.random() < 0.15:
+            doc = '<py:for each="x in xs">%s</py:for>' % doc      # the directive runs more than once in one render
+            self.features.add('py:for')
+        return mt + doc
 
     def msg_element(self, loopvars):
         rng = self.rng
@@ -381,17 +472,31 @@ class Gen(object):
                 fb = '<xi:fallback><i>fb $a</i></xi:fallback>'
         return '<xi:include href="%s">%s</xi:include>' % (href, fb)
 
-    def template(self):
-        body = ''.join([self.text()] + [self.element(1, ()) for _ in range(self.rng.choice([1, 2, 2, 3]))])
-        return HEAD + body + TAIL
+    def template(self, focus=None):
+        # the construct in focus comes first: what the rest of a random template does with random data (most often:
+        # raise) must not keep the renders from reaching it
+        first = []
+        if focus == 'lazy':
+            first = [self.lazy_element(())]
+        elif focus == 'match':
+            first = [self.match_block()]
+        parts = [self.text()] + first + [self.element(1, ()) for _ in range(self.rng.choice([1, 2, 2, 3]))]
+        return HEAD + ''.join(parts) + TAIL
 
 
 def esc_attr(v):
     return v.replace('&', '&amp;').replace('<', '&lt;').replace('"', '&quot;')
 
 
-def rand_template(rng, modelled=False):
-    """-> dict(src, files, translator, auto_reload, features)"""
+LAZY_FEATURES = ('lazy-genexp', 'lambda-late', 'codeblock-generator')
+
+
+def rand_template(rng, modelled=False, focus=None):
+    """-> dict(src, files, translator, auto_reload, features).  focus: None | 'lazy' | 'match' | 'auto' -- put a
+    lazily evaluated nested scope / a stateful match path at the top level of the template ('auto': sometimes)"""
+    if focus == 'auto':
+        r = rng.random()
+        focus = 'lazy' if r < 0.10 else 'match' if r < 0.18 else None
     translator = rng.random() < (0.6 if not modelled else 0.5)
     files = {}
     use_files = rng.random() < (0.3 if not modelled else 0.35)
@@ -413,19 +518,19 @@ def rand_template(rng, modelled=False):
             g2.budget = 3
             files['w2.html'] = g2.template()      # never the target of a dynamic include: no include cycles
     g = Gen(rng, modelled, i18n=translator, includes=sorted(files))
-    src = g.template()
+    src = g.template(focus)
     feats = set(g.features)
     if use_files:
         feats.add('loader')
     return {'src': src, 'files': files, 'translator': translator,
             'auto_reload': (bool(rng.random() < 0.5) if use_files else True) or modelled,
-            'features': sorted(feats)}
+            'features': sorted(feats), 'focus': focus}
 
 
-def rand_schedule(rng, k, length):
+def rand_schedule(rng, k, length, lockstep=0.35):
     """a list of render indices < k; biased towards bursts and fine interleaving alike"""
     out = []
-    if rng.random() < 0.35:
+    if rng.random() < lockstep:
         # lock step: every render is suspended at the same place of the template as the others
         while len(out) < length:
             out.extend(range(k))
